@@ -26,6 +26,7 @@ type Spec struct {
 	Names   []string `json:"names,omitempty"`
 	KeyKind []int    `json:"key_kind,omitempty"` // Struct member key: 0 plain name, 1 Optional[name], 2 String[name] type given explicitly
 	HasSize bool     `json:"has_size,omitempty"`
+	V       *VSpec   `json:"v,omitempty"` // ext3.go: the value whose inferred / detailed / generic type the recipe "ValType" denotes
 }
 
 const Max = math.MaxInt64
@@ -200,6 +201,10 @@ func (v *VSpec) Build() px.Value {
 		return types.WrapSensitive(v.Sub[0].Build())
 	case "Timespan":
 		return types.WrapTimespan(1000)
+	}
+	if x := buildExtVal(v); x != nil {
+		// value kinds added by ext3.go (instances of Object types)
+		return x
 	}
 	panic("lat.VSpec.Build: unknown kind " + v.K)
 }
